@@ -115,3 +115,33 @@ Proof.
   - apply refused_spec in E1. apply (conflict_perm _ _ HP') in E1. apply refused_spec in E1. congruence.
   - apply refused_spec in E2. apply (conflict_perm _ _ (Permutation_sym HP')) in E2. apply refused_spec in E2. congruence.
 Qed.
+
+(* ---------- the quiet log level: duplicates are dropped, not refused ------------------------------------------ *)
+
+(* whoever registers a name first keeps it, at either level *)
+Lemma register_keeps s r n i : sfind n s = Some i -> sfind n (fst (register s r)) = Some i.
+Proof.
+  intros H. unfold register. destruct (sfind (reg_name r) s) as [j|] eqn:E.
+  - destruct (Nat.eqb j (rq_inst r)); exact H.
+  - cbn [fst]. clear E. induction s as [|[m k] t IH]; cbn [sfind app] in *; [discriminate|].
+    destruct (Nat.eqb m n); [exact H|apply IH; exact H].
+Qed.
+
+Lemma register_all_q_keeps rs : forall s n i, sfind n s = Some i -> sfind n (fst (register_all_q s rs)) = Some i.
+Proof.
+  induction rs as [|r rest IH]; intros s n i H; cbn [register_all_q]; [exact H|].
+  pose proof (register_keeps s r n i H) as H1. destruct (register s r) as [s' o]. cbn [fst] in H1.
+  specialize (IH s' n i H1). destruct (register_all_q s' rest) as [s2 outs]. exact IH.
+Qed.
+
+(* without a refusal the two levels do exactly the same *)
+Lemma register_all_q_agrees rs : forall s, refused_from s rs = false -> register_all_q s rs = register_all s rs.
+Proof.
+  unfold refused_from. induction rs as [|r rest IH]; intros s H; cbn [register_all_q register_all] in *; [reflexivity|].
+  destruct (register s r) as [s' o] eqn:E. destruct o.
+  - destruct (register_all s' rest) as [s2 outs] eqn:E2. cbn [snd existsb is_panic orb] in H.
+    rewrite (IH s'); [rewrite E2; reflexivity|rewrite E2; exact H].
+  - destruct (register_all s' rest) as [s2 outs] eqn:E2. cbn [snd existsb is_panic orb] in H.
+    rewrite (IH s'); [rewrite E2; reflexivity|rewrite E2; exact H].
+  - cbn [snd existsb is_panic orb] in H. discriminate.
+Qed.
